@@ -11,7 +11,8 @@
  * Memory accounting for the leak clause: std builds replace malloc/calloc/realloc/free of the whole process by
  * counting wrappers around glibc's __libc_* entry points (the documented way of interposing malloc) and report
  * the change of the number of live heap objects across the call; sanitizer builds (which own malloc) report the
- * result of a recoverable LeakSanitizer check made right after the call. */
+ * change of the sanitizer allocator's "currently allocated bytes" plus the result of a recoverable LeakSanitizer
+ * pass.  The field is "leak"; the specification says 0. */
 #if defined(__has_feature)
 # if __has_feature(address_sanitizer)
 #  define VH_BP_ASAN 1
@@ -19,10 +20,13 @@
 #endif
 #ifdef VH_BP_ASAN
 #include <sanitizer/lsan_interface.h>
+#include <sanitizer/allocator_interface.h>
 /* the harness main loop keeps its line/output buffers until exit; leaks are looked for explicitly (below) */
 const char *__asan_default_options(void) { return "leak_check_at_exit=0"; }
-static long long vh_bp_heap(void) { return 0; }
-static long long vh_bp_leakcheck(void) { return __lsan_do_recoverable_leak_check() ? 1 : 0; }
+/* bytes currently allocated according to the sanitizer's allocator */
+static long long vh_bp_heap(void) { return (long long)__sanitizer_get_current_allocated_bytes(); }
+/* a LeakSanitizer pass scans the whole heap (slow): made at every 16th call; leaks persist, so a later pass still sees them */
+static long long vh_bp_leakcheck(void) { static unsigned calls = 0; return (calls++ % 16 == 0 && __lsan_do_recoverable_leak_check()) ? 1 : 0; }
 #else
 extern void *__libc_malloc(size_t); extern void __libc_free(void*);
 extern void *__libc_calloc(size_t, size_t); extern void *__libc_realloc(void*, size_t);
